@@ -31,13 +31,16 @@ type Plan struct {
 	BodyChunkMode int
 	BodyFixed     int
 	BodyZeroReads int
-	BodyStallAt   int   // -1 none
-	ContentLength int64 // declared; -1 unknown
-	BodyCloseErr  error
+	BodyStallAt   int // -1 none
+	// BodyTransientAt: the body read that starts at this offset fails once (a timeout) and delivers nothing; the rest of
+	// the body is there for whoever reads on (-1 none)
+	BodyTransientAt int
+	ContentLength   int64 // declared; -1 unknown
+	BodyCloseErr    error
 }
 
 func DefaultPlan() *Plan {
-	return &Plan{FailDuringAt: -1, BodyStallAt: -1, Status: 200, Header: http.Header{}, ContentLength: -1}
+	return &Plan{FailDuringAt: -1, BodyStallAt: -1, BodyTransientAt: -1, Status: 200, Header: http.Header{}, ContentLength: -1}
 }
 
 // Exchange records what one RoundTrip saw and did.
@@ -214,6 +217,7 @@ func (s *SimTransport) RoundTrip(req *http.Request) (*http.Response, error) {
 	body.FixedChunk = plan.BodyFixed
 	body.ZeroReads = plan.BodyZeroReads
 	body.StallAt = plan.BodyStallAt
+	body.TransientErrAt = plan.BodyTransientAt
 	body.Ctx = ctx
 	body.Cancellable = true
 	body.CloseErr = plan.BodyCloseErr
